@@ -94,7 +94,7 @@ def gen_ts(rng, tps, base=None):
         secs = min(secs, lim - 1)
     else:
         secs = max(0, min(lim - 1, base + rng.choice([-2, -1, 0, 0, 1, 2, 3600])))
-    ticks = rng.choice([0, tps - 1, tps // 2, rng.randrange(tps)])
+    ticks = rng.choice([0, 0, tps - 1, tps // 2, rng.randrange(tps)])
     return secs, ticks
 
 
@@ -321,7 +321,7 @@ def gen_history(rng, nops=30, comp=None, out=None, nbps=None, rich=False, rot=Tr
     total_n = len(bps)
     blocks_written = False
     active = 0
-    base = rng.choice([0, 1500000000, 1 << 32])
+    base = rng.choice([0, 0, 1500000000, 1 << 32])     # 0: instants at and right after the epoch
     for _ in range(nops):
         tps = (min(tps_of(b) for b in bps), max(tps_of(b) for b in bps))
         x = rng.random()
